@@ -6,6 +6,7 @@ kind and the item membership of every block).  Here: the heading *levels*.
 Helper lemmas live in `IweModel/Lemmas/Outline.lean`.
 -/
 import IweModel.Lemmas.Outline
+import IweModel.Lemmas.ReaderOutline
 
 namespace Iwe.C07
 open Iwe Outline
@@ -44,6 +45,48 @@ theorem heading_count_kept (fuel : Nat) (dir : String) (w : Bool) (bs : List DBl
     (hok : Sections.blocks fuel dir w bs = .ok f) :
     (levelsG (Project.forest dir 0 (forestWithIds id b f))).length = (levelsD bs).length :=
   (countSpec fuel).1 dir w bs f hok 0 b
+
+/-- **the reader keeps the outline it is given**: on every complete event stream that follows the parser's grammar,
+the top-level headings of the blocks `MarkdownEventsReader::read` returns have, in order, exactly the levels of the
+heading events the parser reported at top level — none lost, invented, reordered or re-levelled between
+pulldown-cmark and the section builder (headings inside quotes and list items stay inside them: `reader_content`
+and the token theorems of C01) -/
+theorem reader_outline (content : Position.Bytes) (evs : List Reader.Ev) (bs : List DBlock) (m : Option String)
+    (hwf : Events.wellFormed evs = true) (h : Reader.read content evs = .ok (bs, m)) :
+    levelsD bs = levelsEv [] evs := by
+  obtain ⟨st, hs, hstack, _, _⟩ := ReaderTotal.run_delivers_core content evs hwf
+  simp only [Reader.read, hs, Except.ok.injEq, Prod.mk.injEq] at h
+  have hfs : Events.run [] evs = some [] := by simpa [Events.wellFormed] using hwf
+  have hc := ReaderOutline.run_levels content evs ReaderTotal.rel_init hfs hs
+  rw [← h.1]
+  simpa [ReaderOutline.lv, ReaderOutline.bottom, hstack, levelsD] using hc
+
+/-- hence, end to end from the parser's events: a well-nested outline is reproduced level for level, and any outline
+keeps its number of headings -/
+theorem events_to_rendered_outline (content : Position.Bytes) (dir : String) (evs : List Reader.Ev) (bs : List DBlock)
+    (m : Option String) (f : List BTree) (b : Nat)
+    (hwf : Events.wellFormed evs = true) (h : Reader.read content evs = .ok (bs, m))
+    (hok : Sections.forest dir bs = .ok f) :
+    (levelsG (Project.forest dir 0 (forestWithIds id b f))).length = (levelsEv [] evs).length
+    ∧ (wellNested 0 (levelsEv [] evs) = true →
+        levelsG (Project.forest dir 0 (forestWithIds id b f)) = levelsEv [] evs) := by
+  have e := reader_outline content evs bs m hwf h
+  refine ⟨?_, fun hwn => ?_⟩
+  · rw [← e]; exact heading_count_kept _ dir true bs f b hok
+  · rw [← e] at hwn ⊢; exact note_nest_identity dir bs f b hok hwn
+
+/-- non-vacuity: `# a`, a quote holding `### q`, `## b` with a list item holding `# i`: the top-level outline is 1, 2 -/
+example :
+    let evs : List Reader.Ev :=
+      [.startHeading 0 3 1, .text 2 3 "a", .endHeading,
+       .startQuote 4 12, .startHeading 6 11 3, .text 10 11 "q", .endHeading, .endQuote,
+       .startHeading 13 17 2, .text 16 17 "b", .endHeading,
+       .startList false, .startItem, .startHeading 20 23 1, .text 22 23 "i", .endHeading, .endItem, .endList]
+    Events.wellFormed evs = true ∧ levelsEv [] evs = [1, 2] ∧
+      (match Reader.read [] evs with
+       | .ok (bs, _) => levelsD bs == [1, 2]
+       | .error _ => false) = true := by
+  decide
 
 /-- heading levels restart inside quotes and list items: they are projected at depth 0 whatever the
 depth of the enclosing section -/
